@@ -43,7 +43,11 @@
      SCORE_POOLS_IN_PLACE              score pools the probe statistics with +=  (writes data[0])
      FIT_CENTRES_X_IN_PLACE            a fit centres the training array in place (X -= X.mean(0))
      IVECTOR_ESTEP_IN_PLACE            the i-vector E-step starts its accumulator from the first
-                                       statistic's n and adds to it in place                          *)
+                                       statistic's n and adds to it in place
+     STATS_ADD_EMPTY_ALIASES_OPERAND   `a + b` with an empty (zero) operand returns an object built around
+                                       the other operand's arrays
+     STATS_IADD_EMPTY_ADOPTS_OPERAND   `acc += s` into an empty accumulator adopts s's arrays, so the next
+                                       `+=` writes into the caller's s                                  *)
 EXTENDS Naturals, Sequences, FiniteSets, TLC, Json
 
 CONSTANTS Families,         \* subset of {"kmeans", "gmm", "stats", "isv", "jfa", "ivector", "linear"}
@@ -157,7 +161,17 @@ GmmTransform(m) == GmmUse("GmmTransform", m)
 GmmLogLikelihood(m) == GmmUse("GmmLogLikelihood", m)
 
 \* ------------------------------------------------------------------ statistics, linear scoring
-StatsAdd == fam = "stats" /\ Call("StatsAdd", 0, "numpy", 0, "value", S1 \cup S2, {}, Fresh)
+\* a = 0: the caller's statistics added with `+`; a = 1: the reduction starts from an EMPTY container (zero statistics,
+\* the usual seed of a sum) on the left; a = 2: an empty container on the right.  Whatever the operands hold, `+`
+\* returns a new object in the library's own memory (deviation STATS_ADD_EMPTY_ALIASES_OPERAND: with an empty operand
+\* the result is built around the other operand's arrays)
+StatsAdd(a) == fam = "stats" /\ Call("StatsAdd", a, "numpy", 0, "value", S1 \cup S2, {},
+                                    IF a > 0 /\ "STATS_ADD_EMPTY_ALIASES_OPERAND" \in Dev THEN S1 ELSE Fresh)
+\* the caller's statistics accumulated with `+=` into a new, empty container of the caller's: the container is the
+\* result, the operands are only read (an accumulator that adopts its first operand's arrays would write into them
+\* from the second `+=` on)
+StatsAccumulate == fam = "stats" /\ Call("StatsIAdd", 1, "numpy", 0, "value", S1 \cup S2,
+                                         On("STATS_IADD_EMPTY_ADOPTS_OPERAND", S1), Fresh)
 \* s1 += s2: the caller asks for s1 to be changed; nothing is returned but s1 itself
 StatsIAdd == /\ fam = "stats"
              /\ LET nval == [c \in Cells |-> IF c \in S1 THEN <<cver[c] + 1>> ELSE val[c]]
@@ -225,8 +239,9 @@ Next == \/ \E it \in {0, 1, 3} : KMeansFit(it)
         \/ \E m \in Ms \cup {0} : GmmAccStats(m)
         \/ \E m \in Ms \cup {0} : GmmTransform(m)
         \/ \E m \in Ms \cup {0} : GmmLogLikelihood(m)
-        \/ StatsAdd
+        \/ \E a \in 0..2 : StatsAdd(a)
         \/ StatsIAdd
+        \/ StatsAccumulate
         \/ \E f \in {"array", "machines"} : LinearScoring(f)
         \/ FaFit
         \/ FaFitUsingArray
